@@ -413,6 +413,18 @@ func makeOptionalPtrDecoder(typ reflect.Type) (decoder, error) {
 	if err != nil {
 		return nil, err
 	}
+	// Only the empty value of the element's own kind stands for nil: the
+	// empty string for integers, booleans, strings, big integers and byte
+	// slices/arrays, the empty list for everything else. This is also what
+	// the encoder writes for a nil pointer, so the encoding stays unique.
+	nilKind := List
+	switch k := etype.Kind(); {
+	case etype == bigInt, isUint(k), k == reflect.Bool, k == reflect.String:
+		nilKind = String
+	case (k == reflect.Slice || k == reflect.Array) && etype.Elem().Kind() == reflect.Uint8 &&
+		!reflect.PtrTo(etype.Elem()).Implements(decoderInterface):
+		nilKind = String
+	}
 	dec := func(s *Stream, val reflect.Value) (err error) {
 		kind, size, err := s.Kind()
 		if err != nil || size == 0 && kind != Byte {
@@ -422,6 +434,9 @@ func makeOptionalPtrDecoder(typ reflect.Type) (decoder, error) {
 			s.kind = -1
 			// set the pointer to nil.
 			val.Set(reflect.Zero(typ))
+			if err == nil && kind != nilKind {
+				return &decodeError{msg: "wrong kind of empty value", typ: typ}
+			}
 			return err
 		}
 		newval := val
